@@ -28,7 +28,7 @@ func parseFLChunked(in []byte) (fl sipsp.PFLine, n int, e sipsp.ErrorHdr, pan st
 	p, msg, _ := core.Guard(func() {
 		offs := 0
 		for c := 1; c <= len(in); c++ {
-			n, e = sipsp.ParseFLine(in[:c], offs, &fl)
+			n, e = sipsp.ParseFLine(isoCopy(in[:c]), offs, &fl)
 			if e != sipsp.ErrHdrMoreBytes {
 				return
 			}
